@@ -1,3 +1,4 @@
+From Coq Require Import NArith ZArith List.
 From JamV Require Import Model.Telemetry.
 Require Import ExtrOcamlBasic.
 Extraction "model.ml" N.of_nat N.to_nat Z.of_N Z.to_N accepts accepts_conns followups_ok ids_inc run init all_wires results.
